@@ -128,7 +128,10 @@ def build_one(gg, ns, prog, decorate=False, describe=False):
             sd = gg.build(prog, dict(ns))
         if describe:
             from sc3.synth.synthdesc import SynthDesc
-            SynthDesc.new_from(sd)
+            if describe == 'nokeep':     # the reader path that keeps no def
+                SynthDesc.new_from(sd, keep_def=False)
+            else:
+                SynthDesc.new_from(sd)
         b = bytes(sd.as_bytes())
         return ['ok', hashlib.sha256(b).hexdigest(), len(sd._children)]
     except Exception as e:
@@ -219,7 +222,7 @@ def run_shard(spec, acc):
     elif kind == 'rev':
         for i in reversed(idx):
             out[str(i)] = build_one(gg, ns, gen(seed, i), decorate=i % 2 == 0,
-                                    describe=i % 3 == 0)
+                                    describe=(False, True, 'nokeep')[i % 3])
             acc.count('decorated_builds', int(i % 2 == 0))
     elif kind == 'fail':
         for i in idx:
@@ -278,7 +281,8 @@ def run_shard(spec, acc):
                         with lock:      # acc is not thread safe
                             pass
                         failing_build_threadsafe(gg, tns, trng, seed, acc, main, lock)
-                    r = build_one(gg, tns, gen(seed, i), describe=trng.random() < 0.5)
+                    r = build_one(gg, tns, gen(seed, i),
+                                  describe=trng.choice([False, True, 'nokeep', 'nokeep']))
                     with lock:
                         out[str(i)] = r
                         acc.count('concurrent_builds')
